@@ -122,11 +122,38 @@ class Translator:
 
     def translate(self, name, body):
         C = ["void %s(void)" % name, "{", "        vf_regs_t R = vf_entry_regs();", "        uint64_t stk[16]; int sp = 0; _Bool zf = 0;"]
-        for ln in body:
+        # a label whose only predecessor-by-jump is a conditional jump at the end of the straight-line
+        # code that follows it is emitted as do { } while (cond) so that a loop contract can be attached
+        spin = {}
+        for i, ln in enumerate(body):
+            m = re.match(r"^(\w+):$", ln)
+            if not m:
+                continue
+            for j in range(i + 1, len(body)):
+                if re.match(r"^\w+:$", body[j]):
+                    break
+                mj = re.match(r"^(je|jz|jne|jnz|jmp)\s+(\w+)$", body[j])
+                if mj:
+                    if mj.group(2) == m.group(1) and mj.group(1) != "jmp":
+                        others = [k for k, l2 in enumerate(body) if k != j and re.match(r"^(je|jz|jne|jnz|jmp)\s+%s$" % m.group(1), l2)]
+                        if not others:
+                            spin[i] = (j, mj.group(1))
+                    break
+        ends = {j: (i, c) for i, (j, c) in spin.items()}
+        for idx, ln in enumerate(body):
+            if idx in spin:
+                C.append("        do VF_LOOP_%s {" % ln[:-1])
+                continue
+            if idx in ends:
+                c = ends[idx][1]
+                C.append("        } while (%s);" % ("zf" if c in ("je", "jz") else "!zf"))
+                continue
             m = re.match(r"^(\w+):$", ln)
             if m:
-                C.append("%s:;" % m.group(1))
+                C.append("L_%s:;" % m.group(1))
                 continue
+            if getattr(self, "sync_hook", None) and re.search(r"\[", ln):
+                C.append("        " + self.sync_hook)
             m = re.match(r"^(lock\s+)?(\w+)\s*(.*)$", ln)
             if not m:
                 raise TranslationError("line not understood: %r" % ln)
@@ -165,11 +192,11 @@ class Translator:
                 cast = "(uint32_t)" if w == 32 else "(uint64_t)"
                 C.append(t + "zf = (%s (%s)) == (%s (%s));" % (cast, a, cast, b))
             elif op in ("je", "jz"):
-                C.append(t + "if (zf) goto %s;" % ops[0])
+                C.append(t + "if (zf) goto L_%s;" % ops[0])
             elif op in ("jne", "jnz"):
-                C.append(t + "if (!zf) goto %s;" % ops[0])
+                C.append(t + "if (!zf) goto L_%s;" % ops[0])
             elif op == "jmp":
-                C.append(t + "goto %s;" % ops[0])
+                C.append(t + "goto L_%s;" % ops[0])
             elif op == "cmove":
                 C.append(t + "if (zf) { %s }" % self.wr(ops[0], self.rd(ops[1])[0]))
             elif op == "cmovne":
@@ -189,9 +216,11 @@ class Translator:
                 C.append(t + "{ uint32_t old_ = (uint32_t) R.rax; zf = vf_cmpxchg_%s(&old_, %s); R.rax = old_; }"
                          % (mm.group(2), self.rd(ops[1])[0]))
             elif op == "ret":
-                C.append(t + "vf_ret(sp); return;")
+                C.append(t + "vf_ret(sp, &R); return;")
             elif op in ("endbranch", "endbr64", "align", "nop"):
                 continue
+            elif op == "times" and rest.rstrip().endswith("nop"):
+                continue  # alignment padding
             elif op in ("dq", "dd", "dw", "db"):
                 continue
             else:
